@@ -527,7 +527,7 @@ func (*Ufs) Read(req *SrvReq) {
 			nextend := sort.SearchInts(fid.direntends, int(tc.Offset)+count)
 			if nextend < len(fid.direntends) {
 				if fid.direntends[nextend] > int(tc.Offset)+count {
-					if nextend > 0 {
+					if nextend > 0 && fid.direntends[nextend-1] > int(tc.Offset) {
 						count = fid.direntends[nextend-1] - int(tc.Offset)
 					} else {
 						count = 0
